@@ -138,6 +138,10 @@ int __wrap_getentropy(void *buf, size_t len)
 	}
 	rng_bytes(&n->ent, buf, len);
 	n->ent_bytes += len;
+	if (n->ndrawbytes < 160 && len <= 48) {
+		memcpy(n->drawbytes[n->ndrawbytes], buf, len);
+		n->drawbytes_len[n->ndrawbytes++] = (uint8_t)len;
+	}
 	if (n->eburst_at >= 0 && (int64_t)idx >= n->eburst_at && (int64_t)idx < n->eburst_at + n->eburst_k) {
 		memset(buf, n->eburst_val, len);
 		n->eburst_fired++;
